@@ -1,6 +1,8 @@
 import Rink.Driver.Alloc
+import Rink.Driver.Eval
 
 def main (args : List String) : IO UInt32 := do
   match args with
   | ["alloc"] => Rink.Driver.Alloc.main; return 0
-  | _ => IO.eprintln "usage: rinkmodel <alloc|...>"; return 2
+  | ["eval", dump] => Rink.Driver.Eval.main dump; return 0
+  | _ => IO.eprintln "usage: rinkmodel <alloc | eval DUMP>"; return 2
